@@ -5,8 +5,8 @@
 //! `Session::execute` (GQL), `execute_cypher`, `execute_with_params` (QueryProcessor path),
 //! `execute_gremlin` (`g.V()`, `g.V().count()`), and — outside a transaction — the
 //! `GrafeoDB::execute*` convenience calls.  The model has one op / read kind for all of them
-//! (they hand the same (viewing epoch, transaction) to the planner); the one entry point that does
-//! not, `GrafeoDB::execute_cypher_with_params`, is a read kind of its own (`FreshLabelScan`).
+//! (they hand the same (viewing epoch, transaction) to the planner); the one entry point that did
+//! not before 752d5ee, `GrafeoDB::execute_cypher_with_params`, is a read kind of its own (`FreshLabelScan`).
 //!
 //! One case = one history.  Every step's output is canonicalised (sorted lists) and printed as a Coq
 //! term of type `out` (coq/Mvcc/Model.v); the case's `coq` field is `chk_hist OPS OUTS`
@@ -74,7 +74,7 @@ enum Kind {
     DbCounts,
     StoreLabel(i64),
     StoreProp(i64, i64),
-    /// `GrafeoDB::execute_cypher_with_params("MATCH (n:L) RETURN n")`: planned with a private transaction manager
+    /// `GrafeoDB::execute_cypher_with_params("MATCH (n:L) RETURN n")` (planned with a private transaction manager before 752d5ee)
     FreshLabelScan(i64),
 }
 
@@ -1412,7 +1412,7 @@ fn corpus(prop: &str) -> Vec<(&'static str, Vec<Op>, bool)> {
         v.push(("corpus:K5-rdf", vec![InsertTriple(OBSERVER, (0, 0, 0)), Begin(0), InsertTriple(0, (1, 1, 1)), Read(0, TripleQ((None, None, None))), InsertTriple(0, (0, 0, 0)), Read(0, TripleApi((None, None, None))), DeleteTriple(0, (1, 1, 1)), Read(0, TripleApi((None, None, None))), Read(1, TripleQ((None, None, None))), Commit(0), Read(1, TripleQ((None, None, None)))], false));
         // K6 neighbours ignore visibility
         v.push(("corpus:K6-neigh", vec![CreateNode(OBSERVER, vec![], vec![], false), CreateNode(OBSERVER, vec![], vec![], false), Begin(0), CreateEdge(0, 0, 1, 0), Read(1, Neigh(0, Dir::Out)), Read(1, Degree(0)), Rollback(0), Read(1, Neigh(0, Dir::Out)), Read(1, GetEdge(0))], false));
-        // K7 GrafeoDB::execute_cypher_with_params plans with a private transaction manager (epoch 0)
+        // K7 (repaired by 752d5ee, must pass now): GrafeoDB::execute_cypher_with_params planned with a private transaction manager (epoch 0)
         v.push(("corpus:K7-fresh-manager", vec![Begin(0), Commit(0), Begin(0), CreateNode(0, vec![0], vec![(0, Some(1))], true), Commit(0), Read(OBSERVER, LabelScan(0)), Read(OBSERVER, FreshLabelScan(0))], false));
         // expands: clean (reader's snapshot precedes the writer), and one deviation per class (1, 3, 4)
         v.push(("corpus:clean-expand", vec![CreateNode(OBSERVER, vec![0], vec![], false), CreateNode(OBSERVER, vec![1], vec![], false), CreateEdge(OBSERVER, 0, 1, 0), CreateEdge(OBSERVER, 1, 1, 1), Begin(1), Begin(2), Commit(2), Begin(0), CreateEdge(0, 1, 0, 1), Read(0, Expand(Sel::Any, Dir::Both, None)), Read(1, Expand(Sel::Label(0), Dir::Out, Some(0))), Read(1, Expand(Sel::Any, Dir::In, None)), Read(1, Expand(Sel::Any, Dir::Both, Some(1))), Commit(0), Read(1, Expand(Sel::Any, Dir::Out, None))], false));
@@ -1428,6 +1428,8 @@ fn corpus(prop: &str) -> Vec<(&'static str, Vec<Op>, bool)> {
         v.push(("corpus:K1-rollback-inplace", vec![CreateNode(OBSERVER, vec![0], vec![(0, Some(1))], false), CreateNode(OBSERVER, vec![1], vec![], false)], true));
         v.push(("corpus:K2-rollback-creation", vec![CreateNode(OBSERVER, vec![0], vec![], false)], true));
         v.push(("corpus:K4-drop", vec![CreateNode(OBSERVER, vec![0], vec![], false)], true));
+        // C02-K4 repaired (3eb02b5): the unlabelled shape must now leave the dump unchanged
+        v.push(("corpus:K4-drop-plain", vec![CreateNode(OBSERVER, vec![0], vec![], false)], true));
         v.push(("corpus:K5-commit-epoch", vec![], true));
         v.push(("corpus:clean-rollback", vec![CreateNode(OBSERVER, vec![0], vec![(1, Some(2))], false), InsertTriple(OBSERVER, (0, 0, 0))], true));
         v.push(("corpus:clean-commit", vec![CreateNode(OBSERVER, vec![0], vec![(1, Some(2))], false), InsertTriple(OBSERVER, (0, 0, 0))], true));
@@ -1444,6 +1446,7 @@ fn corpus_tx(name: &str) -> Vec<Op> {
         "corpus:K1-rollback-inplace" => vec![Begin(0), SetProp(0, Sel::Label(0), 0, 0, Some(2)), AddLabel(0, Sel::Label(0), 0, 2), RemoveLabel(0, Sel::Label(1), 1, 1), DeleteNode(0, Sel::Label(0), 0, false), Rollback(0)],
         "corpus:K2-rollback-creation" => vec![Begin(0), CreateNode(0, vec![1], vec![(0, Some(3))], true), CreateEdge(0, 0, 1, 0), Rollback(0)],
         "corpus:K4-drop" => vec![Begin(0), CreateNode(0, vec![1], vec![], false), InsertTriple(0, (0, 0, 0)), DropSession(0)],
+        "corpus:K4-drop-plain" => vec![Begin(0), CreateNode(0, vec![], vec![], false), InsertTriple(0, (0, 0, 0)), DropSession(0)],
         "corpus:K5-commit-epoch" => vec![Begin(1), Commit(1), Begin(0), CreateNode(0, vec![0], vec![(0, Some(1))], true), InsertTriple(0, (0, 0, 0)), Commit(0)],
         "corpus:clean-rollback" => vec![Begin(0), CreateNode(0, vec![], vec![], false), InsertTriple(0, (1, 1, 1)), DeleteTriple(0, (0, 0, 0)), Read(1, Kind::AllScan), Rollback(0)],
         "corpus:clean-commit" => vec![Begin(0), CreateNode(0, vec![], vec![], false), InsertTriple(0, (1, 1, 1)), DeleteTriple(0, (0, 0, 0)), Read(1, Kind::TripleQ((None, None, None))), Commit(0)],
